@@ -2,6 +2,7 @@ package props
 
 import (
 	"context"
+	"errors"
 	"fmt"
 	"math"
 	"math/bits"
@@ -408,6 +409,14 @@ func c19CheckState(d *c19Dir, n uint64, st *replication.State) string {
 	return ""
 }
 
+// c19TransportError reports an error raised by the HTTP client while performing a request
+// (connection trouble, a cancellation), as opposed to a status code, a URL that does not
+// parse or a state file that does not decode.
+func c19TransportError(err error) bool {
+	var ue *url.Error
+	return err != nil && errors.As(err, &ue) && ue.Op != "parse"
+}
+
 type c19LookupObs struct {
 	Stream   string    `json:"stream"`
 	Present  string    `json:"present"`
@@ -430,6 +439,17 @@ func c19Lookup(res *fw.Result, p *srv.Planet, sd *srv.Dir, d *c19Dir, q, v int, 
 	p.Load(sd, budget, d.prefix)
 	got, st, err := c19StateAt(c19Datasource(p), d.stream, t)
 	count, log, unexpected, perSeq := p.Observed()
+	// A lookup that fails inside the HTTP client's transport (not with a status the server
+	// sent) while the server stayed within the budget is run again, in a fresh epoch: net/http
+	// can hand the cancellation error of an earlier, cancelled request to an unrelated later
+	// request that was given the same connection. A failure that is the library's own doing
+	// repeats; only one that persists is judged.
+	for try := 0; try < 2 && c19TransportError(err) && count <= budget && len(unexpected) == 0; try++ {
+		res.Add("lookups_repeated_after_transport_error", 1)
+		p.Load(sd, budget, d.prefix)
+		got, st, err = c19StateAt(c19Datasource(p), d.stream, t)
+		count, log, unexpected, perSeq = p.Observed()
+	}
 
 	k := len(d.present)
 	obs := &c19LookupObs{Stream: d.stream, Present: c19SetString(d.present), Query: t.Format(time.RFC3339Nano),
@@ -563,6 +583,10 @@ func c19Exec(c fw.Case) *fw.Result {
 	case "data":
 		c19ExecData(res, p, stream, c.Seed)
 	}
+	// requests the server received after the lookup they belong to had returned (a client may
+	// cancel a request in flight; its handler can still run later): observed, not judged
+	res.Add("late_requests_of_finished_lookups", p.TakeLate())
+	res.Add("lookups_repeated_after_transport_error", 0)
 	return res
 }
 
@@ -1257,6 +1281,7 @@ func c19ExecData(res *fw.Result, p *srv.Planet, stream string, seed uint64) {
 		res.Eval(fmt.Sprintf("data/%s/digits%d/prefix=%v", stream, len(strconv.FormatUint(n, 10)), prefix != ""))
 		// a missing data file is a NotFound error
 		p.Load(&srv.Dir{Stream: stream, States: map[uint64]srv.StateFile{}, Current: n}, 4, prefix)
+		ds.BaseURL = p.BaseURL()
 		switch stream {
 		case srv.Minute:
 			_, err = ds.Minute(ctx, replication.MinuteSeqNum(n))
@@ -1292,6 +1317,7 @@ func init() {
 			"Changeset directories never hold state files below 2 007 990 together with that file (ChangesetState documents that the planet has no state files before it), so a search may start at either 1 or 2 007 990.",
 			"Offset windows whose missing prefix is longer than 5000 files are not queried at or before their first present state: the property lets an exact search step over every missing file there (millions of requests), so neither outcome could be judged cheaply.",
 			"Not asserted: order or exact number of probes, error texts, which requests are repeated, behaviour for directories whose timestamps are not increasing or whose state.txt names a missing file, sequence numbers >= 10^9, a nil Datasource.Client.",
+			"Every lookup carries its own epoch in the base URL (/e<n>/…); requests arriving after their lookup returned (cancelled in flight) are counted, not judged. A lookup failing with a transport-level error is repeated up to twice and judged only if the failure persists.",
 			"A lookup that errors is a violation only because every response of the fake server within the budget is a 200 or a 404 in the documented layout.",
 		},
 		Cases:       c19Cases,
